@@ -248,13 +248,40 @@ CBMC_BASE = ['--no-standard-checks', '--no-malloc-may-fail', '--drop-unused-func
 SAFETY = ['--bounds-check', '--pointer-check', '--div-by-zero-check', '--undefined-shift-check']
 
 
+def reduced_to_double_bits(v):
+    """bits of the reduced format (1 sign, 53 exponent, 10 fraction) -> bits of the binary64 with the same value"""
+    import struct
+    sgn = v >> 63
+    e = (v >> 10) & ((1 << 53) - 1)
+    f = v & 1023
+    bias = (1 << 52) - 1
+    if e == (1 << 53) - 1:
+        d = float('nan') if f else float('inf')
+    elif e == 0:
+        d = 0.0
+    else:
+        ex = e - bias
+        if ex > 1023:
+            d = float('inf')
+        elif ex < -1074:
+            d = 0.0
+        else:
+            import math
+            d = math.ldexp(1.0 + f / 1024.0, ex)
+    if sgn:
+        d = -d
+    return struct.unpack('<Q', struct.pack('<d', d))[0]
+
+
 def run_cbmc(u, harness, hdefs, unwind, unwindset, safety, timeout, witness=False, trace=True, solver=None,
-             mem_gb=None, extra=None):
+             mem_gb=None, extra=None, reduced=False):
     d = u['dir']
     cmd = ['cbmc', os.path.join(d, 'unit.c'), os.path.join(HARN, harness), '-I' + RT, '-I' + d, '-I' + HARN,
            '-I' + tables_dir(), '--function', 'fsv_harness'] + dflags(hdefs)
     if witness:
         cmd.append('-DWITNESS')
+    if reduced:
+        cmd.append('-DFSV_FP_REDUCED')
     cmd += CBMC_BASE
     if safety:
         cmd += SAFETY
@@ -316,7 +343,10 @@ def run_cbmc(u, harness, hdefs, unwind, unwindset, safety, timeout, witness=Fals
                                 if b is None and v.get('name') == 'integer':
                                     b = bin(int(v['data']))[2:]
                                 if b is not None and re.fullmatch(r'[01]+', b):
-                                    ins[lhs] = int(b, 2)
+                                    val = int(b, 2)
+                                    if reduced and v.get('name') == 'float' and len(b) == 64:
+                                        val = reduced_to_double_bits(val)
+                                    ins[lhs] = val
                     f['inputs'] = ins
                     res['failed'].append(f)
         if 'cProverStatus' in item:
@@ -361,7 +391,7 @@ def replay(u, harness, hdefs, cex_path, translated=False):
 class Query:
     def __init__(self, qid, unit, harness, udefs=None, hdefs=None, unwind=None, unwindset=None, safety=False,
                  timeout=600, expect='pass', kf=None, diff=200, solver='auto', shim=True, check_nsw=False,
-                 note='', bounds=None, mem_gb=12, extra=None, want='property', sat_cap=40, loops=None, kf_marker=None):
+                 note='', bounds=None, mem_gb=12, extra=None, want='property', sat_cap=40, loops=None, kf_marker=None, reduced=False):
         self.qid, self.unit, self.harness = qid, unit, harness
         self.udefs, self.hdefs = udefs or {}, hdefs or {}
         self.unwind, self.unwindset, self.safety, self.timeout = unwind, unwindset, safety, timeout
@@ -376,6 +406,7 @@ class Query:
         self.mem_gb = mem_gb
         self.extra = extra
         self.want = want          # which failure class decides this query: 'property' or 'safety'
+        self.reduced = reduced    # encode double as the 11-bit-significand format (cbmc only); see DESIGN.md 3.3
         self.kf_marker = kf_marker  # text the native replay must print for a counter-example to count as the known finding
         self.loops = loops        # [(regex over 'file:function', bound)] -> --unwindset via debug locations
         self.sat_cap = sat_cap    # solver='auto': seconds given to the SAT back end before falling back to cbmc --cvc5
@@ -384,7 +415,7 @@ class Query:
 def run_query(q, prop, seed, outdir):
     """returns result dict with verdict in PASS | CEX | ERROR"""
     r = dict(qid=q.qid, unit=q.unit, harness=q.harness, udefs=q.udefs, hdefs=q.hdefs, bounds=q.bounds,
-             unwind=q.unwind, unwindset=q.unwindset, note=q.note, expect=q.expect, kf=q.kf)
+             unwind=q.unwind, unwindset=q.unwindset, note=q.note, expect=q.expect, kf=q.kf, reduced_precision=q.reduced)
     t0 = time.time()
     try:
         u = build_unit(q.unit, q.udefs, shim=q.shim, check_nsw=q.check_nsw)
@@ -403,7 +434,7 @@ def run_query(q, prop, seed, outdir):
             r['unwindset_sources'] = desc
 
         def solve(witness):
-            kw = dict(witness=witness, trace=not witness, mem_gb=q.mem_gb, extra=q.extra)
+            kw = dict(witness=witness, trace=not witness, mem_gb=q.mem_gb, extra=q.extra, reduced=q.reduced)
             saf = q.safety and not witness
             if q.solver != 'auto':
                 return run_cbmc(u, q.harness, q.hdefs, q.unwind, q.unwindset, saf, q.timeout, solver=q.solver, **kw)
